@@ -65,6 +65,12 @@ pub trait CrashSpec {
     fn run_history(&self, dir: &Path, rec: &mut Recorder) -> Result<(), String>;
     /// Reopen whatever is in `dir` and read everything: Err = refused, Ok(state) = logical content.
     fn reopen(&self, dir: &Path) -> Result<Vec<u8>, String>;
+    /// Called (in the same child) after `reopen` succeeded on an image: keep USING the recovered structure — a few
+    /// more operations, another sync, another reopen — and return Err(description) if it then misbehaves
+    /// (crash-recovered states are non-initial start states for further histories).
+    fn after_reopen(&self, _dir: &Path) -> Result<(), String> {
+        Ok(())
+    }
     /// sector sizes used to tear unsynced writes
     fn sector_sizes(&self, tier: Tier) -> Vec<usize> {
         tier.pick(vec![512], vec![512, 64])
@@ -223,6 +229,8 @@ enum ChildAnswer {
     Refused(String),
     State(Vec<u8>),
     Panic(String),
+    /// reopen gave an acceptable-looking state, but using the recovered structure afterwards went wrong
+    BadAfterRecovery(Vec<u8>, String),
 }
 
 impl<S: CrashSpec> Crash<S> {
@@ -245,7 +253,11 @@ impl<S: CrashSpec> Crash<S> {
                 libc::setrlimit(libc::RLIMIT_CORE, &core);
             }
             let ans = match catch(|| self.spec.reopen(dir)) {
-                Ok(Ok(s)) => ChildAnswer::State(s),
+                Ok(Ok(s)) => match catch(|| self.spec.after_reopen(dir)) {
+                    Ok(Ok(())) => ChildAnswer::State(s),
+                    Ok(Err(e)) => ChildAnswer::BadAfterRecovery(s, e),
+                    Err(f) => ChildAnswer::BadAfterRecovery(s, format!("panic while using the recovered structure: {}", f.detail)),
+                },
                 Ok(Err(e)) => ChildAnswer::Refused(e),
                 Err(f) => ChildAnswer::Panic(f.detail),
             };
@@ -330,6 +342,18 @@ impl<S: CrashSpec> Crash<S> {
             Err(how) => Err(Fail::new("fault_on_reopen", format!("reopening the image ({kind}) killed the process: {how}")).with_class(format!("{kind}/{how}"))),
             Ok(ChildAnswer::Panic(m)) => Err(Fail::new("panic_on_reopen", format!("reopening the image ({kind}) panicked: {m}")).with_class(kind.to_string())),
             Ok(ChildAnswer::Refused(_)) => Ok("refused".into()),
+            Ok(ChildAnswer::BadAfterRecovery(s, e)) => {
+                // only judged when the reopened state itself was acceptable (otherwise the reopen clause reports it)
+                let mut reached = states.iter().filter(|(pos, _)| *pos <= prefix).count();
+                if reached < states.len() {
+                    reached += 1;
+                }
+                if states[..reached].iter().any(|(_, st)| *st == s) {
+                    Err(Fail::new("wrong_after_recovery", format!("the image ({kind}, log prefix {prefix}) reopened with an acceptable content, but using the recovered structure went wrong: {e}")).with_class(kind.to_string()))
+                } else {
+                    Err(Fail::new("unknown_state_after_reopen", format!("reopening the image ({kind}, log prefix {prefix}) succeeded with a logical content ({} bytes) that equals no sync point reached so far (and later use failed: {e})", s.len())).with_class(kind.to_string()))
+                }
+            }
             Ok(ChildAnswer::State(s)) => {
                 // acceptable: the logical content at any operation boundary / sync point reached at this prefix, or of the
                 // operation in progress (its writes may all have reached the disk)
